@@ -1593,3 +1593,51 @@ def r_cancel_delegates(prog, rep):
     lr = LockSets(rm)
     er = [c for c in rm.calls() if "obj" in c and expr_plain(c.child("obj")) == "cancellationDelegates"]
     r.check(bool(er) and all(M in (lr.held_at_node(c) or set()) for c in er), "removeCancellationDelegate|under-mutex", "", "delegate removed without %s" % M, rm)
+
+
+def r_dfs_pairing(prog, rep):
+    r = rep.rule("R-DFS-PAIRING", "the cycle search keeps its path list and its on-path set in step: a node is appended to the reported list and inserted into the set "
+                                  "together, on its first visit only; the search stops exactly when the insertion finds the node already on the path; a finished node "
+                                  "leaves the list, the set and the stack together; the search starts at the requested key and walks the inverted wait-for graph", floor=6)
+    f = efn(prog, "findCycle")
+    bf = BranchFacts(f, kill="assign")
+    push = [c for c in f.calls("push_back") if expr_plain(c.child("obj")) == "cycleList"]
+    ins = [c for c in f.calls() if "obj" in c and expr_plain(c.child("obj")) == "cycleItems" and (c.get("fn") or "").split("::")[-1] == "insert"]
+    ok = len(push) == 1 and len(ins) == 1 and expr_plain(arg_nodes(push[0])[0]) == "entry.node" and expr_plain(arg_nodes(ins[0])[0]) == "entry.node"
+    if ok:
+        ok = cfg.pos_of(f, push[0])[0] == cfg.pos_of(f, ins[0])[0] or (
+            cfg.path_exists(f, cfg.pos_of(f, push[0]), cfg.is_exit, avoid=lambda p, e, t=cfg.pos_of(f, ins[0]): p == t) is None)
+        ok = ok and has(facts_at(bf, push[0]), "predecessorIndex", True, ("==", "0")) and has(facts_at(bf, ins[0]), "predecessorIndex", True, ("==", "0"))
+    r.check(ok, "findCycle|append-and-mark-together-on-first-visit", "", "a node is appended to the reported list without being marked on-path (or on a revisit)", f)
+    brk = [n for n in f.nodes if n.get("k") == "break"]
+    okb = len(brk) == 1 and any((not p) and "second" in a for a, p in (bf.at_node(brk[0]) or frozenset()))
+    r.check(okb, "findCycle|stop-iff-already-on-path", "", "the search does not stop exactly when the node is already on the current path", f)
+    er = [c for c in f.calls() if "obj" in c and expr_plain(c.child("obj")) == "cycleItems" and (c.get("fn") or "").split("::")[-1] == "erase"]
+    pl = [c for c in f.calls("pop_back") if expr_plain(c.child("obj")) == "cycleList"]
+    ps = [c for c in f.calls("pop_back") if expr_plain(c.child("obj")) == "stack"]
+    okf = len(er) == 1 and len(pl) == 1 and len(ps) == 1 and expr_plain(arg_nodes(er[0])[0]) == "entry.node" and \
+        len(set(cfg.pos_of(f, c)[0] for c in (er[0], pl[0], ps[0]))) == 1
+    if okf:
+        # finishing happens only after every predecessor was visited: the `index != size` arm continues
+        st = facts_at(bf, er[0])
+        okf = any((not p) and "predecessorIndex" in a and "size()" in a for a, p in st) or any(p and "predecessorIndex" in a and "size()" in a and "==" in a for a, p in st)
+    r.check(okf, "findCycle|finished-node-leaves-list-set-and-stack-together", "", "a finished node does not leave the reported list, the on-path set and the stack together, "
+            "after all its predecessors were visited", f)
+    inc = [n for n in f.nodes if (n.get("k") == "bin" and n.get("op") == "+=" or n.get("k") == "un" and "++" in n.get("op", "")) and "predecessorIndex" in expr_str(n)]
+    emp = [c for c in f.calls() if "obj" in c and expr_plain(c.child("obj")) == "stack" and (c.get("fn") or "").split("::")[-1] in ("emplace_back", "push_back")]
+    oki = len(inc) == 1 and len(emp) == 1 and cfg.dominated_by(f, cfg.pos_of(f, emp[0]), lambda p, e, t=cfg.pos_of(f, inc[0]): p == t)[0] and \
+        "predecessors[entry.predecessorIndex]" in " ".join(expr_plain(f.nodes[v["init"]]) for d in f.nodes if d.get("k") == "decl" for v in d.get("vars", []) if v.get("n") == "child" and "init" in v)
+    r.check(oki, "findCycle|each-predecessor-visited-once", "", "the predecessor index is not advanced before the child is pushed", f)
+    st0 = [d for d in f.nodes if d.get("k") == "decl" and any(v.get("n") == "stack" for v in d.get("vars", []))]
+    ok0 = False
+    if len(st0) == 1:
+        v0 = [v for v in st0[0]["vars"] if v.get("n") == "stack"][0]
+        sub = list(f.nodes[v0["init"]].walk()) if "init" in v0 else []
+        ok0 = any(x.get("k") == "call" and (x.get("fn") or "").endswith("getRuleInfoForKey") and any(y.get("k") == "ref" and y.get("n") == "buildKey" for y in x.walk()) for x in sub)
+    r.check(ok0, "findCycle|starts-at-requested-key", "", "the search does not start at the rule of the requested key", f)
+    inv = [c for c in f.calls("push_back") if "predecessorGraph" in expr_str(c.child("obj"))]
+    oki2 = len(inv) == 1 and "succ" in expr_plain(inv[0].child("obj")) and expr_plain(arg_nodes(inv[0])[0]) == "node"
+    r.check(oki2, "findCycle|graph-inverted", "", "the predecessor graph is not the inverse of the successor graph", f)
+    rets = [n for n in f.nodes if n.get("k") == "return"]
+    r.check(len(rets) == 1 and expr_plain(rets[0].child("e")).strip("()") in ("cycleList", "vector(cycleList)", "std::move(cycleList)") or
+            (len(rets) == 1 and "cycleList" in expr_str(rets[0])), "findCycle|returns-path-list", "", "findCycle does not return the path list", f)
